@@ -17,7 +17,8 @@ RULE = (
     "rotation incl. exact multiples of 90 degrees, optional skew, both starting parities, reference pixel inside / centred / "
     "far outside, CD or CDELT+PC spelling; image size 1..200 per axis; object kind: array-backed Image (scalar or colour), "
     "PIL-backed Image with or without its array already cached, data-less ImageDescription with 2-D or (h,w,planes) shape; "
-    "operation sequence: flip, flip twice, ensure_negative_parity once/twice). Oracle: parity sign negated by a flip; rows "
+    "operation sequence: 1-6 of flip / ensure_negative_parity in any order; a third of the cases handle 1-3 other objects (other WCS, "
+    "other parity) first, each created, queried, operated on and released, in the same process). Oracle: parity sign negated by a flip; rows "
     "reversed and otherwise identical; for sampled pixel coordinates (corners, centre, non-integers, generated) "
     "world(x,y) before = world(x,h-1-y) after, compared as unit vectors (1e-10 rad); ensure_negative_parity gives -1 and is "
     "idempotent (second call changes nothing). Non-trivial: rotation not a multiple of 90 degrees, or non-zero skew, or an "
@@ -109,6 +110,31 @@ def check_flip(obj, arr0, case, what):
 
 
 def exec_case(case):
+    """a case is a history: 0-3 earlier objects (each created, queried, operated on and released) and then the main one;
+    every object is judged on its own"""
+    n_before = 0
+    for k, sub in enumerate(case.get("before", [])):
+        try:
+            exec_one(sub)
+        except Violation as v:
+            raise Violation(v.clause, f"object #{k + 1} of {len(case['before']) + 1} handled one after another in one process: {v.msg}")
+        n_before += 1
+    try:
+        out = exec_one(case)
+    except Violation as v:
+        if n_before:
+            raise Violation(v.clause, f"object #{n_before + 1} of {n_before + 1} handled one after another in one process: {v.msg}")
+        raise
+    if n_before:
+        out.classes.append("after-other-objects")
+        ps = [b["wcs"]["parity"] for b in case["before"]] + [case["wcs"]["parity"]]
+        if len(set(ps)) > 1:
+            out.classes.append("after-objects-of-other-parity")
+    out.count = n_before + 1
+    return out
+
+
+def exec_one(case):
     obj, arr = make_object(case)
     what = f"{type(obj).__name__}({case['kind']})"
     exp_p = wcsgen.expected_parity(case["wcs"])
@@ -150,7 +176,9 @@ def exec_case(case):
                         raise Violation("rows-reversed", f"{what}: ensure_negative_parity flipped the WCS but did not reverse the rows ({case['kind']})")
                     arr = arr[::-1].copy()
     s = case["wcs"]
-    cls = [case["kind"], s["proj"], s["spelling"], "parity%+d" % s["parity"], s["crpix_mode"], "+".join(case["ops"])]
+    cls = [case["kind"], s["proj"], s["spelling"], "parity%+d" % s["parity"], s["crpix_mode"], "+".join(case["ops"]) if len(case["ops"]) <= 3 else f"{len(case['ops'])}-ops"]
+    if case["ops"].count("flip") >= 3:
+        cls.append("three-or-more-flips")
     right = s["rot"] in (90.0, -90.0, 270.0)
     if right:
         cls.append("exact-90deg")
@@ -164,11 +192,21 @@ def exec_case(case):
 def strat(draw, tier):
     kind = draw(st.sampled_from(["array_f32", "array_rgb", "pil_rgb", "pil_rgb_cached", "pil_rgba_cached", "desc_2d", "desc_rgb"]))
     size = st.one_of(st.integers(1, 200), st.sampled_from([1, 2, 3, 199, 200]))
-    ops = draw(st.sampled_from([["flip"], ["flip", "flip"], ["ensure"], ["ensure", "ensure"], ["flip", "ensure", "ensure"], ["ensure", "flip"]]))
-    return {
+    ops = draw(st.one_of(
+        st.sampled_from([["flip"], ["flip", "flip"], ["ensure"], ["ensure", "ensure"], ["flip", "ensure", "ensure"], ["ensure", "flip"]]),
+        st.lists(st.sampled_from(["flip", "flip", "ensure"]), min_size=1, max_size=6)))
+    case = {
         "kind": kind, "width": draw(size), "height": draw(size), "wcs": draw(wcsgen.wcs_specs()), "ops": ops,
         "pixels": draw(st.lists(st.tuples(st.floats(-0.2, 1.2), st.floats(-0.2, 1.2)), max_size=4)),
     }
+    if draw(st.integers(0, 2)) == 0:
+        before = []
+        for _ in range(draw(st.integers(1, 3))):
+            sub = {"kind": draw(st.sampled_from([kind, kind, "array_f32", "desc_2d"])), "width": draw(st.integers(1, 40)), "height": draw(st.integers(1, 40)),
+                   "wcs": draw(wcsgen.wcs_specs()), "ops": draw(st.lists(st.sampled_from(["flip", "ensure"]), max_size=2)), "pixels": []}
+            before.append(sub)
+        case["before"] = before
+    return case
 
 
 PARTS = [
